@@ -23,7 +23,7 @@ INFO = dict(
               'raise. Oracle at quiescence: applying the delivered joins/leaves in order leaves exactly the members present in the tree; no member '
               'joins twice or leaves twice without the opposite event in between; a raising callback does not stop later notifications. '
               'The solver decides orderings and name aliasing only: the weakest fit of the technique among the claimed properties.',
-  bounds={'quick': 'k <= 3 tree operations after the initial state, 3 member names, symbolic delivery delays', 'thorough': 'k <= 5 operations'},
+  bounds={'quick': 'every history of k <= 3 tree operations after the initial state (3 member names) plus two scripted 5-operation histories (reading a member\'s data takes a symbolic while so that it can vanish before it is read, path deleted and re-created with the same member names), all with symbolic gaps and delivery delays', 'thorough': 'k <= 5 operations'},
   outside=['real ZooKeeper session events (disconnect / expiry)', 'more than 3 distinct member names', 'malformed member data'],
   stubs=['in-memory znode tree + KazooClient subclass overriding get/exists/get_children/retry/start/stop (3.11); kazoo recipes are the real ones',
          'virtual loop (3.1)'],
@@ -42,6 +42,7 @@ class Tree(object):
   def __init__(self, delays):
     self.nodes = {}; self.zxid = 0; self.data_w = {}; self.child_w = {}
     self.q = gevent.queue.Queue(); self.delays = delays; self.nev = 0
+    self.last_ready = None
     self.parent_change_seen_at = []      # when the client gets to see each deletion / creation of the watched path
     self.worker = gevent.spawn(self._deliver)
   def _deliver(self):
@@ -56,8 +57,12 @@ class Tree(object):
     ws = table.pop(path, [])
     for w in ws:
       d = self.delays(self.nev); self.nev += 1
-      self.q.put((vtime.now() + d, w, WatchedEvent(typ, KazooState.CONNECTED, path)))
-      if table is self.data_w and path == '/svc': self.parent_change_seen_at.append(vtime.now() + d)
+      ready = vtime.now() + d
+      # events are delivered in order: one that is queued behind a slower one is seen no earlier than that one
+      if self.last_ready is not None and bool(self.last_ready > ready): ready = self.last_ready
+      self.last_ready = ready
+      self.q.put((ready, w, WatchedEvent(typ, KazooState.CONNECTED, path)))
+      if table is self.data_w and path == '/svc': self.parent_change_seen_at.append(ready)
   def create(self, path, data=b''):
     self.zxid += 1; self.nodes[path] = (data, self.zxid)
     parent = path.rsplit('/', 1)[0] or '/'
@@ -76,7 +81,7 @@ class Tree(object):
 
 class FakeZk(KazooClient):
   def __init__(self, tree):
-    self.tree = tree; self.handler = SequentialGeventHandler(); self._listeners = []; self.vanished = 0
+    self.tree = tree; self.handler = SequentialGeventHandler(); self._listeners = []; self.vanished = 0; self.read_delay = None; self.reads_in_progress = 0
   connected = True
   def start(self, timeout=15): pass
   def stop(self): pass
@@ -87,6 +92,12 @@ class FakeZk(KazooClient):
     if watch: self.tree.data_w.setdefault(path, []).append(watch)
     return self.tree.stat(path) if path in self.tree.nodes else None
   def get(self, path, watch=None):
+    if self.read_delay is not None and path.count('/') >= 2:
+      d = self.read_delay()             # reading a member's data takes a (symbolic) while: it may vanish meanwhile
+      if d is not None:
+        self.reads_in_progress += 1
+        try: gevent.sleep(d)
+        finally: self.reads_in_progress -= 1
     if path not in self.tree.nodes:
       self.vanished += 1
       raise NoNodeError()
@@ -100,7 +111,10 @@ class FakeZk(KazooClient):
 
 def jobs(tier):
   k = 3 if tier == 'quick' else 5
-  return [dict(name='history-k%d' % k, k=k, raising=False, cost=5000, shards=32, shard_depth=6),
+  scripts = {'vanish-then-recreate': ['create:member_B', 'delete:member_B', 'rmparent', 'mkparent', 'create:member_B'],
+             'recreate-same-names': ['create:member_B', 'rmparent', 'mkparent', 'create:member_A', 'create:member_B']}
+  return [dict(name='history-script-%s' % n, k=len(ops), script=ops, raising=False, slow_reads=3 if n.startswith('vanish') else 0, cost=2000, shards=16, shard_depth=5) for n, ops in sorted(scripts.items())] + [
+          dict(name='history-k%d' % k, k=k, raising=False, cost=5000, shards=32, shard_depth=6),
           dict(name='history-k%d-raising' % min(k, 3), k=min(k, 3), raising=True, cost=5000, shards=16, shard_depth=5)]
 
 
@@ -113,8 +127,16 @@ def make_body(job):
       if i not in delays: delays[i] = fresh_real('watch_delay%d' % i, 0, 2)
       return delays[i]
     t = Tree(delay); zk = FakeZk(t)
+    if job.get('slow_reads'):
+      nread = [0]
+      def rd():
+        nread[0] += 1
+        if nread[0] != job['slow_reads']: return None       # only the read of the newly listed member is slow
+        d = fresh_real('read_takes%d' % nread[0], 0, 1)
+        return d if hdecide(d > 0) else None
+      zk.read_delay = rd
     t.create('/svc'); t.create('/svc/member_A', member_blob(0))
-    view = {}; log = []; raised = []; aba = []
+    view = {}; log = []; raised = []; aba = []; spans = []
     will_raise = job['raising']
     def on_join(m):
       log.append(('join', m.name)); view[m.name] = m
@@ -137,7 +159,13 @@ def make_body(job):
         for i, n in enumerate(NAMES):
           ops.append(('delete', n) if n in present else ('create', n))
         ops.append(('rmparent', None))
-      op, n = ops[choose('op%d' % step, len(ops))]
+      if job.get('script'):
+        want = job['script'][step].split(':')
+        cand = [o for o in ops if o[0] == want[0] and (len(want) == 1 or o[1] == want[1])]
+        if not cand: continue
+        op, n = cand[0]
+      else:
+        op, n = ops[choose('op%d' % step, len(ops))]
       if op == 'create': t.create('/svc/' + n, member_blob(NAMES.index(n))); cover('member-created')
       elif op == 'delete': t.delete('/svc/' + n); cover('member-deleted')
       elif op == 'mkparent':
@@ -147,9 +175,11 @@ def make_body(job):
       else:
         for c in list(present): t.delete('/svc/' + c)
         if t.parent_change_seen_at: aba.append(vtime.now() <= t.parent_change_seen_at[-1])
+        if zk.reads_in_progress: spans.append(True)
         t.delete('/svc'); cover('parent-deleted')
     gevent.sleep(30)
     define('path_changed_again_before_change_seen', sor(*aba) if aba else False)
+    define('member_read_in_progress_when_path_deleted', bool(spans))
     if zk.vanished: cover('member-vanished-before-read')
     actual = set(t.children('/svc')) if '/svc' in t.nodes else set()
     check('view-equals-tree-members', set(view.keys()) == actual)
